@@ -83,6 +83,10 @@ func backpropAcrossNode(rootNode *RootAssertionNode, node ast.Node) error {
 		rootNode.AddComputation(n.X)
 	case *ast.GoStmt:
 		rootNode.AddComputation(n.Call)
+	case *ast.DeferStmt:
+		// The function value and the arguments of a deferred call are evaluated, and passed to
+		// the parameters, at the defer statement itself (only the execution of the call is delayed).
+		rootNode.AddComputation(n.Call)
 	case *ast.IncDecStmt:
 		rootNode.AddComputation(n.X)
 
@@ -108,9 +112,8 @@ func backpropAcrossNode(rootNode *RootAssertionNode, node ast.Node) error {
 		}
 	// The following cases are not interesting to our nilness analysis, or are currently
 	// unsupported, so we do nothing for them.
-	case *ast.BasicLit, *ast.Ident, *ast.EmptyStmt, *ast.DeferStmt:
+	case *ast.BasicLit, *ast.Ident, *ast.EmptyStmt:
 		// TODO: figure out what source code generates these cases - it's not obvious
-		// TODO: handle defers
 	default:
 		return fmt.Errorf("unrecognized AST node %T in CFG - add a case for it", n)
 	}
